@@ -143,6 +143,10 @@ def run(tier="quick", seed=0):
                     fail("roundtrip", f"job for {sp}: id {job.id}, canonical {ref_id(sp)}, file hashes to {ref_id(back)}", f"import signac, tempfile\nsp = {sp!r}\n"
                          "with tempfile.TemporaryDirectory() as d:\n    j = signac.init_project(d).open_job(sp).init()\n    import json\n"
                          "    assert j.id == " + repr(ref_id(sp)) + "\n")
+    from .fsharness import KNOWN_SEEN, probe_known
+    probe_known()
+    if "dep:equal-value-other-type-ignored" in KNOWN_SEEN:
+        failures.append({"key": "dep:equal-value-other-type-ignored", "description": "known finding re-observed", "script": ""})
     return {"scope": "golden ids; one-session type-distinctness groups in both orders; random nested state points to depth 3 / 4 entries over 19 scalars (non-ASCII, empty, big ints, floats) "
                      "under key permutations, tuple/list and JSONAttrDict spellings; write/read round trip through real jobs",
             "evaluations": evals, "distinct_nontrivial": len(distinct), "rule": "a case is one calc_id call; distinct = distinct canonical ids", "samples": samples, "failures": failures}
